@@ -107,6 +107,8 @@ type scriptRunner struct {
 	ops  []opJ
 	last types.AsyncLoadResult
 	hung bool
+	// a panic in the code under test (recovered here so that the case is reported and the driver goes on)
+	panicked string
 }
 
 func newRunner(u *universe, tb *tables, local []int) *scriptRunner {
@@ -195,6 +197,11 @@ func (s *scriptRunner) await(maxWait time.Duration) bool {
 	select {
 	case r := <-s.pend:
 		s.pend = nil
+		if pe, ok := r.Err.(panicErr); ok {
+			s.panicked = pe.msg
+			s.hung = true // stop the script: nothing more is issued
+			return true
+		}
 		s.last = r
 		s.obs = append(s.obs, fmt.Sprintf("(%s, %s)", s.resultTerm(r), cw.NList(s.keys())))
 		return true
@@ -206,7 +213,26 @@ func (s *scriptRunner) await(maxWait time.Duration) bool {
 	}
 }
 
+type panicErr struct{ msg string }
+
+func (e panicErr) Error() string { return e.msg }
+
+func (s *scriptRunner) recoverLoad(ch chan types.AsyncLoadResult, where string) {
+	if r := recover(); r != nil {
+		ch <- types.AsyncLoadResult{Err: panicErr{fmt.Sprintf("panic in %s: %v", where, r)}}
+	}
+}
+
 func (s *scriptRunner) apply(op opJ) {
+	if s.panicked != "" {
+		return
+	}
+	defer func() {
+		if r := recover(); r != nil {
+			s.panicked = fmt.Sprintf("panic in ReconciledLoader (%s): %v", op.Op, r)
+			s.ops = append(s.ops, op)
+		}
+	}()
 	switch op.Op {
 	case "online":
 		if op.B {
@@ -234,7 +260,10 @@ func (s *scriptRunner) apply(op opJ) {
 		lctx := linking.LinkContext{LinkPath: datamodel.ParsePath(strings.Join(op.Path, "/"))}
 		ch := make(chan types.AsyncLoadResult, 1)
 		s.pend = ch
-		go func() { ch <- s.rl.BlockReadOpener(lctx, cidlink.Link{Cid: c}) }()
+		go func() {
+			defer s.recoverLoad(ch, "ReconciledLoader.BlockReadOpener")
+			ch <- s.rl.BlockReadOpener(lctx, cidlink.Link{Cid: c})
+		}()
 	case "retry":
 		s.await(0)
 		if s.hung {
@@ -242,7 +271,10 @@ func (s *scriptRunner) apply(op opJ) {
 		}
 		ch := make(chan types.AsyncLoadResult, 1)
 		s.pend = ch
-		go func() { ch <- s.rl.RetryLastLoad() }()
+		go func() {
+			defer s.recoverLoad(ch, "ReconciledLoader.RetryLastLoad")
+			ch <- s.rl.RetryLastLoad()
+		}()
 	}
 	s.ops = append(s.ops, op)
 }
@@ -593,7 +625,9 @@ func runScriptCase(w *cw.Writer, sc scriptCase, kind string) error {
 	sc.Tags = tags
 	term := fmt.Sprintf("DL (Build_lcase %s\n    %s\n    %s)", idxList(sc.Local), cw.List(ops), cw.List(s.obs))
 	idx := w.Add(term, sc, len(s.obs) >= 3, tags...)
-	if s.hung {
+	if s.panicked != "" {
+		w.Violation(idx, s.panicked, "loader-panic")
+	} else if s.hung {
 		w.Violation(idx, "a load did not return within 20s although the loader was set offline", "loader-hang")
 	}
 	return nil
